@@ -89,7 +89,7 @@ func (w *world) enabled() []op {
 	if len(w.objs) < maxObjs {
 		for i, o := range w.objs {
 			if o.isCtx {
-				out = append(out, op{"c.Str", i}, op{"c.Big", i}, op{"c.Ctx", i}, op{"c.Logger", i}, op{"c.Stack", i})
+				out = append(out, op{"c.Str", i}, op{"c.Big", i}, op{"c.BigObj", i}, op{"c.Ctx", i}, op{"c.Logger", i}, op{"c.Stack", i})
 			} else {
 				out = append(out, op{"l.With", i}, op{"l.Level", i}, op{"l.Output", i}, op{"l.Hook", i}, op{"l.HookCtx", i}, op{"l.WithStr", i}, op{"l.Sample", i})
 			}
@@ -149,6 +149,12 @@ func (w *world) apply(o op) {
 	case "c.Big": // a field that outgrows the 500-byte capacity With() reserves: append reallocates
 		src := w.objs[o.tgt]
 		f := seqx.Field{M: "Str", Key: name("b"), Val: strings.Repeat("B", 520)}
+		m := src.m.Clone()
+		m.Ctx = append(m.Ctx, seqx.FieldsExp([]seqx.Field{f})...)
+		w.objs = append(w.objs, &obj{isCtx: true, cx: seqx.ApplyContext(src.cx, f), m: m, origin: "c.Str", parent: o.tgt, fromCtxValue: true})
+	case "c.BigObj": // an object field larger than the capacity With() reserves (encoded in a pooled scratch event first)
+		src := w.objs[o.tgt]
+		f := seqx.Field{M: "Object", Key: name("o"), Form: "val", Sub: []seqx.Field{{M: "Str", Key: "s", Val: strings.Repeat("O", 520)}}}
 		m := src.m.Clone()
 		m.Ctx = append(m.Ctx, seqx.FieldsExp([]seqx.Field{f})...)
 		w.objs = append(w.objs, &obj{isCtx: true, cx: seqx.ApplyContext(src.cx, f), m: m, origin: "c.Str", parent: o.tgt, fromCtxValue: true})
